@@ -663,7 +663,9 @@ def unit_c_divisions(fn):
         hyps = c10.nonneg_hyps(args) + [r for r in reqs if isinstance(r, tm.T)] + [t for kind, t, g, q, w in sy.side if kind == "assume"]
         arr_req = [r for r in reqs if isinstance(r, tuple)]
         ctx.assume("requires of %s: %s" % (fn, "; ".join([tm.show(r, 60) for r in reqs if isinstance(r, tm.T)] + ["every element of %s is %s 0" % (r[1], ">" if r[2] else ">=") for r in arr_req])
-                   + " (log(lambd) > 0 is the instance of the monotonicity of log for lambd > 1)"))
+                   + " (log(lambd) > 0 is the instance of the monotonicity of log for lambd > 1)"
+                   + ("; NOTE the sign requirement on exp_g is NOT established by the Python callers for every accepted parameter set (a raw exponent can be negative at low tau when a0 is "
+                      "small against tau_mul): the index is then NaN and is absorbed by cider_ind_clip, whose NaN behaviour is under contract in C18 (ind-clip-nan)" if fn in ("cider_ind_etb", "cider_ind_zexp") else "")))
         divs = [(t, g) for kind, t, g, q, w in sy.side if kind == "div"]
         seen = set()
         n = 0
